@@ -14,6 +14,7 @@
         one that mattered; it was repaired and is an ordered Vec now.)
     (b) ambient inputs: environment, time, files, statics, thread-locals, RandomState.  The scanner
         T3b must find none.
+    (c) the build profile of the macro crate itself (debug assertions): T3c, reviewed inventory.
 
     K1 compares the real token stream with the model's (Into impls in written order), and the
     check additionally expands every case several times in one process and in fresh processes. *)
@@ -67,3 +68,12 @@ Proof. vm_compute. reflexivity. Qed.
 Theorem C16_no_ambient_inputs : Sources.ambient = [].
 Proof. reflexivity. Qed.
 Print Assumptions C16_no_ambient_inputs.
+
+(** (c) code that exists under one build profile only (debug assertions, `cfg!` of anything but a feature):
+    the scanner T3c lists every such expression with its full text; the reviewed inventory holds the
+    `debug_assert!(meta.path().is_ident("<Trait>"))` checks only, which read their argument and have no
+    effect on the output.  (The check also expands every case with the macro built under the release
+    profile and compares.) *)
+Theorem C16_profile_code_reviewed : Sources.profile_code = Inventory.profile_code.
+Proof. vm_compute. reflexivity. Qed.
+Print Assumptions C16_profile_code_reviewed.
